@@ -34,6 +34,8 @@ func C13(e *Env) {
 	dupGetterRule(e, "R01.7")
 	c13Getter(e)
 	c13Defaults(e)
+	c13Families(e, "R13.6")
+	r.Rule("R13.6", "name-family separation: ValidateServiceGetter rejects every getter with the Must prefix and every getter with the InContext suffix (the test's true edge creates the error directly, the error reaches the result, every non-nil non-reserved getter reaches the test); with pairwise different getters this makes G, GInContext, MustG and MustGInContext of different services distinct", 2)
 	r.NotCovered = append(r.NotCovered,
 		"the complete truth table of must-getter resolution over {unset,true,false}² (only its dependencies, its error site and the 'no getter' cases are decided)",
 		"that copier.Copy yields the same object (runtime, trusted)")
@@ -320,7 +322,13 @@ func C20(e *Env) {
 	}
 	sks := b.skeletons(e.Tier)
 	effectRules(e, sks)
-	emissionRules(e, sks, map[string]bool{"R05.1": true})
+	emissionRules(e, sks, map[string]bool{"R05.1": true, "R02.5": true})
+	r.Rule("R02.5", "every construction runs its own construction code: a service block registers a constructor closure that evaluates the declared value/constructor/type expression when called (never a value evaluated once at container creation, which would hand one object to every context and every non_shared Get) (shared with C02)", 10)
+	c05Validator(e)
+	loopExitRule(e, "R05.3", outputRel, "a dependency that sorts after the first non-service dependency is never inspected", "ValidateServicesScopes", "Output.BuildDependencyGraph", "Service.AllArgs")
+	c05Wiring(e, "R05.2", "ValidateServicesScopes")
+	r.Rule("R05.3", "a declared-shared service that (transitively) depends on a contextual one would cache the first context's instance for every later context; the validator that rejects such configurations inspects every dependency and is guarded exactly (shared with C05)", 6)
+	r.Rule("R05.2", "that validator is wired into the output validation and cannot be switched off (shared with C05)", 2)
 	r.Rule("R05.1", "a service without declared scope is registered with SetScopeDefault (so the runtime derives contextual-ness from its dependencies) and declared scopes call their own setter (shared with C05): a wrong setter shares a contextual service between contexts", 5)
 	r.NotCovered = append(r.NotCovered,
 		"goroutine schedules, the runtime library's locking, at-most-once construction and context isolation are properties of gontainer-helpers executing; the check decides only that the generated code adds no shared mutable state of its own, so that every race would have to be inside the runtime",
